@@ -158,6 +158,21 @@ def _roundtrip(case, out, home):
         if d:
             out.fail("roundtrip", "roundtrip_differs:%s" % key, {"diff": d, "variant": variant[0]})
             return
+    # a later save under the profile name (what the library does when the server key changes) must be what the profile loads next
+    if how in ("profile", "profile_file") and case.get("fields2") is not None:
+        cfg2 = build_config(case["fields2"])
+        try:
+            cm.save(profile, cfg2)
+            back2 = ConfigManager().load(profile)
+        except Exception as e:
+            out.fail("save", "second_save_raises:%s:%s" % (key, type(e).__name__), {"error": _exc(e)})
+            return
+        out.label("second_save_by_profile_name")
+        d = config_diff(cfg2, back2)
+        if d:
+            stale = config_diff(cfg, back2) is None
+            out.fail("roundtrip", "second_save_not_loaded:%s%s" % (key, ":stale_first_file_loaded" if stale else ""), {"diff": d})
+            return
     # serialising the loaded configuration again gives the same text (stability of the representation)
     try:
         s1 = cm.config_to_str(cfg, stype)
@@ -363,11 +378,12 @@ _profile = st.one_of(st.text(alphabet="abcdefghijklmnopqrstuvwxyz0123456789", mi
 
 
 def rt_strategy():
-    json_case = st.builds(lambda f, how, p: {"sub": "rt", "fmt": "json", "how": how, "fields": f, "profile": p},
+    json_case = st.builds(lambda f, how, p, f2: {"sub": "rt", "fmt": "json", "how": how, "fields": f, "profile": p, "fields2": f2},
                           fields_strategy("json"), st.sampled_from(["profile", "profile", "dest_ext", "dest_noext", "profile_file"]),
-                          _profile)
-    kv_case = st.builds(lambda f, how, p: {"sub": "rt", "fmt": "keyval", "how": how, "fields": f, "profile": p},
-                        fields_strategy("keyval"), st.sampled_from(["dest_ext", "dest_noext", "profile_file"]), _profile)
+                          _profile, st.one_of(st.none(), fields_strategy("json")))
+    kv_case = st.builds(lambda f, how, p, f2: {"sub": "rt", "fmt": "keyval", "how": how, "fields": f, "profile": p, "fields2": f2},
+                        fields_strategy("keyval"), st.sampled_from(["dest_ext", "dest_noext", "profile_file"]), _profile,
+                        st.one_of(st.none(), fields_strategy("json")))
     return st.one_of(json_case, kv_case)
 
 
